@@ -742,7 +742,7 @@ def rule_waker(ck, N):
     init = ck.func(F, CLS + ".__init__")
     r, w = "self." + N["waker_r"], "self." + N["waker_w"]
     for end in (r, w):
-        sb = [c for c in q.find_calls(init.node, end + ".setblocking") if c.args and q.is_const(c.args[0], False)]
+        sb = [c for c in q.find_calls(init.node, end + ".setblocking") if c.args and isinstance(c.args[0], ast.Constant) and c.args[0].value in (False, 0) and c.args[0].value is not None]
         ck.ob("C40.waker", init, init.node, len(sb) >= 1, "%s is non-blocking (a full/empty waker pipe must not block either thread)" % end, construct="setblocking(False) on " + end)
     # wake function: the method that sends on the write end
     wake = [fi for fi in ck.repo.direct_methods(F, CLS) if q.find_calls(fi.node, w + ".send")]
@@ -762,12 +762,18 @@ def rule_waker(ck, N):
         for c in q.find_calls(fi.node, "%s.%s" % (end, op)):
             ck.ob("C40.waker", fi, c, protected(pm, c, "BlockingIOError") is not None, "%s on the non-blocking waker tolerates BlockingIOError (pipe already full / already drained)" % op)
     # closed-flag tested by the wake function
-    closed = set()
+    # the flag that turns the wake function into a no-op: a self attribute the wake function tests (in either polarity)
+    # and close() sets
+    tested = set()
     for n in q.walk_body(wake.node):
-        if isinstance(n, ast.If) and all(isinstance(s, ast.Return) for s in n.body):
-            d = q.dotted(n.test)
-            if d and d.startswith("self."):
-                closed.add(d[5:])
+        if isinstance(n, (ast.If, ast.While, ast.IfExp)):
+            for x in ast.walk(n.test):
+                d = q.dotted(x) if isinstance(x, ast.Attribute) else None
+                if d and d.startswith("self.") and d.count(".") == 1:
+                    tested.add(d[5:])
+    closefn = ck.func(F, CLS + ".close")
+    set_in_close = {p_[5:] for st_ in q.walk_body(closefn.node) if isinstance(st_, (ast.Assign, ast.AnnAssign)) for p_ in q.assigned_paths(st_) if p_.startswith("self.")}
+    closed = tested & set_in_close
     N["closed"] = closed
     # every change of the fd maps wakes the selector (directly or through a private helper that always wakes)
     direct_wake = node_calls("self." + wake.name, w + ".send")
